@@ -1120,12 +1120,17 @@ func (fx *FnExec) mergeStates(ins []incoming) *State {
 		if in.st.epoch != lastEpoch {
 			mixed = true
 			// different epochs: materialise every family known to either side
-			for key, srt := range fx.famSort {
+			var fks []string
+			for key := range fx.famSort {
+				fks = append(fks, key)
+			}
+			sort.Strings(fks)
+			for _, key := range fks {
 				if strings.HasPrefix(key, "G|") {
 					continue
 				}
-				fx.family(res, key, srt)
-				fx.family(in.st, key, srt)
+				fx.family(res, key, fx.famSort[key])
+				fx.family(in.st, key, fx.famSort[key])
 			}
 		}
 	}
@@ -1137,7 +1142,18 @@ func (fx *FnExec) mergeStates(ins []incoming) *State {
 		in := ins[k]
 		cond := in.cond
 		// locals
-		for a, v := range in.st.locals {
+		var las []*ssa.Alloc
+		for a := range in.st.locals {
+			las = append(las, a)
+		}
+		sort.Slice(las, func(i, j int) bool {
+			if las[i].Pos() != las[j].Pos() {
+				return las[i].Pos() < las[j].Pos()
+			}
+			return las[i].Name() < las[j].Name()
+		})
+		for _, a := range las {
+			v := in.st.locals[a]
 			if rv, ok := res.locals[a]; ok {
 				if !sameVal(v, rv) {
 					res.locals[a] = fx.mergeVal(cond, v, rv)
@@ -1177,7 +1193,13 @@ func (fx *FnExec) mergeStates(ins []incoming) *State {
 			}
 			res.heap[key] = fx.mergeTerm(cond, a, b)
 		}
-		for g, v := range in.st.ghost {
+		var gks []string
+		for g := range in.st.ghost {
+			gks = append(gks, g)
+		}
+		sort.Strings(gks)
+		for _, g := range gks {
+			v := in.st.ghost[g]
 			if rv, ok := res.ghost[g]; ok {
 				if !sameVal(v, rv) {
 					res.ghost[g] = fx.mergeVal(cond, v, rv)
@@ -1190,7 +1212,13 @@ func (fx *FnExec) mergeStates(ins []incoming) *State {
 				res.ghost[g] = v
 			}
 		}
-		for g, rv := range res.ghost {
+		var rks []string
+		for g := range res.ghost {
+			rks = append(rks, g)
+		}
+		sort.Strings(rks)
+		for _, g := range rks {
+			rv := res.ghost[g]
 			if _, ok := in.st.ghost[g]; !ok {
 				if strings.HasSuffix(g, "|called") {
 					res.ghost[g] = fx.mergeVal(cond, c.False(), rv)
@@ -1199,7 +1227,13 @@ func (fx *FnExec) mergeStates(ins []incoming) *State {
 				}
 			}
 		}
-		for h, v := range in.st.held {
+		var hks []string
+		for h := range in.st.held {
+			hks = append(hks, h)
+		}
+		sort.Strings(hks)
+		for _, h := range hks {
+			v := in.st.held[h]
 			if rv, ok := res.held[h]; ok {
 				res.held[h] = fx.mergeTerm(cond, v, rv)
 			} else {
